@@ -39,6 +39,9 @@ type History struct {
 	// and the history may Read from it, extend the search path and let Process / GetModule find
 	// imports and includes through the search path (Mode is "files")
 	Files []FileSpec `json:"files,omitempty"`
+	// CLI: the history is (also) a command line of the goyang command, run in the directory tree
+	// Files (cli.go); derived from the Read-by-path operations when absent
+	CLI *CLISpec `json:"cli,omitempty"`
 }
 
 // FileSpec is one file (or, with Dir, one empty directory) of the tree of a file history; Path is
